@@ -94,6 +94,8 @@ let dispatch fn a =
   match fn with
   | "clean" -> string_of_text (x_clean (t 0))
   | "iban_new" -> out string_of_text (x_iban_new (Lazy.force banks) (t 0) (b 1) (b 2))
+  | "iban_new_after" -> out string_of_text (x_iban_new (Lazy.force banks) (t 0) (b 1) (b 2))
+  | "iban_validate_after" -> out string_of_bool' (x_iban_validate (Lazy.force banks) (b 1) (x_clean (t 0)))
   | "iban_validate" -> out string_of_bool' (x_iban_validate (Lazy.force banks) (b 1) (x_clean (t 0)))
   | "iban_is_valid" -> out string_of_bool' (x_iban_is_valid (Lazy.force banks) (x_clean (t 0)))
   | "iban_from_bban" -> out string_of_text (x_iban_from_bban (Lazy.force banks) (t 0) (t 1) (b 2) (b 3))
@@ -167,11 +169,12 @@ let dispatch fn a =
   | "from_components" ->
     out string_of_text (x_from_components (t 0) [(k_bank, t 1); (k_branch, t 2); (k_account, t 3)])
   | "generate" -> out string_of_text (x_generate (Lazy.force banks) (t 0) (t 1) (t 2) (t 3))
-  | "spec_national_accept" ->
+  | "spec_national_accept" | "spec_national_accept_after" ->
     let s = x_clean (t 0) in
     string_of_bool' (s_iso_ok s && s_published_ok (x_iban_cc s) (x_iban_bban s))
   | "spec_only_rejects" | "spec_generate" | "spec_generate_national" | "spec_rebuild" | "spec_random" | "spec_value_laws" | "spec_copies" -> "OK"
   | "spec_published" -> string_of_bool' (s_published_ok (t 0) (t 1))
+  | "generated_published" -> if a.(0) = "-" then "SKIP" else string_of_bool' (s_published_ok (t 0) (t 1))
   | "algo_validate" -> out string_of_bool' (x_algo_validate (t 0) (texts_of_string a.(1)) (t 2))
   | "algo_compute" -> out string_of_text (x_algo_compute (t 0) (texts_of_string a.(1)))
   | "spec_german" ->
